@@ -68,6 +68,19 @@ def check_model_untouched(I, written_attr, name):
             I.eng.oblige(f"{name}/frame: {e.label.text} keeps its physical values", z3.Implies(snap.inidx(TT), v.val(TT) == snap.val(TT)), kind="frame")
 
 
+def check_completeness(I, res, name):
+    """C08 completeness, straight-line rules: every model value whose content the rule used is recorded as a direct ancestor
+    of the result (ghost read-set vs the ancestors collected by ExplainableObject.__init__).  Rules with loops over symbolic
+    lists are covered by the bounded perturbation check instead (their accumulators are havocked to specification views)."""
+    if I.eng.run.cache.get("symbolic_loops"): return
+    if isinstance(res, ExplU): res = I.resolve(res)
+    if not isinstance(res, Expl) or res.anc is None: return
+    reads = set(I.eng.run.cache.get("reads", set()))
+    missing = sorted(str(r) for r in reads if r not in res.anc and r != res.attached)
+    I.eng.oblige(f"{name}/completeness: every model value read is a recorded ancestor of the result" + (f" (missing: {missing[:3]})" if missing else ""),
+                 not missing, kind="post")
+
+
 def check_reads(I, world, cname, attr, name):
     """C18: an update rule only reads inputs, earlier calculated attributes of the same object, or calculated
     attributes of classes strictly earlier in the canonical computation order"""
@@ -150,6 +163,7 @@ def verify_update(world, units, spec: M.Spec, concrete_cls=None, engine_kw=None,
             elif w is None: pass
             else: raise Unsupported(f"spec result {type(w).__name__}")
             check_model_untouched(I, spec.attr, qual)
+            check_completeness(I, res, qual)
             lit = world.schema_lookup(W.UNIT_INV, cname, spec.attr)
             if lit is not None:
                 r2 = I.resolve(res) if isinstance(res, ExplU) else res
